@@ -314,6 +314,13 @@ fn track_locks(st: &mut State, t: usize, name: &str, detail: &str) {
         "txn.locked" | "cp.locked" => {
             st.table_locks.insert(detail.to_string(), t);
         }
+        "vm.commit.begin" => {
+            // DROP TABLE took the table's deletion lock before it pinned and built its changeset
+            if let Some(rest) = detail.strip_prefix("drop:") {
+                let tb = rest.split(',').next().unwrap_or("").to_string();
+                st.table_locks.insert(tb, t);
+            }
+        }
         "txn.pinned" => {
             // an update txn holds the table's deletion lock by the time it has pinned
             let p: Vec<&str> = detail.split(',').collect();
@@ -737,7 +744,7 @@ fn enabled_threads(st: &State) -> Vec<usize> {
         if let Some((name, detail, _)) = &t.gate {
             let ok = match name.as_str() {
                 "vm.commit.begin" => st.manifest_holder.is_none(),
-                "txn.lock.begin" => !st.table_locks.contains_key(detail.as_str()),
+                "txn.lock.begin" | "ddl.drop.applied" => !st.table_locks.contains_key(detail.as_str()),
                 _ => true,
             };
             if ok {
